@@ -235,7 +235,8 @@ var pintComments = []string{
 	"# pint file/owner bob", "# pint rule/owner bob", "# pint rule/set promql/series min-age 1d", "# pint bogus", "# pint disable", "# pint snooze xxx promql/series", "# pint", "#pint ignore/line",
 }
 
-var tokens = []string{"~", "1", "true", "[]", "{}", `""`, "|", ">-", "*a", "&a x", "!!binary x", "<<"}
+var tokens = []string{"~", "1", "true", "[]", "{}", `""`, "|", ">-", "*a", "&a x", "!!binary x", "<<", `"\x75p{job=~\"x\"}"`, `"a\tb"`, `'it''s'`, `"\u00e9 > 0"`, `"up == 0 \
+    or up == 1"`}
 
 func seedBody(c *explore.Chooser) *explore.Case {
 	mi := c.Free(2, "mode") // strict / relaxed, prometheus schema
